@@ -143,6 +143,52 @@ def run(ctx: Ctx) -> None:
                     "a failure of the copy after the record was written leaves a record without data; every later sync sees the path as up to date and never copies"],
                     "record-order", what="the redirect record is written before the data it announces")
 
+    # ---- R5: copy and record are paired per path -----------------------------------------------------------------
+    rep.rule("C19.R5", "under the full commit the data copy and the redirect record are both driven by the path: a record is never written for a path "
+                       "whose copy was dropped by a collection keyed on something else (e.g. the blob key shared by two paths)")
+    from ..fsmodel import contains
+    n5 = 0
+    if full:
+        cps = [e for e in live if e.kind in ("CP", "WRITE_INPLACE") and (any(mentions_attr(e.term, a) for a in data_attrs) or not mentions_sym(e.term, "PATH"))]
+        puts = [e for e in live if e.kind == "PUT"]
+
+        def rekeyed(t: Any) -> Optional[Any]:
+            """a mapping built from (A, B) pairs where B depends on the path and the key A does not: paths that agree on A collapse"""
+            found: List[Any] = []
+
+            def pred(x: Any) -> bool:
+                if isinstance(x, tuple) and x and x[0] == "call" and len(x) >= 3 and isinstance(x[1], str) and x[1].split(".")[-1] in ("OrderedDict", "dict"):
+                    c = x[2]
+                    if isinstance(c, tuple) and c and c[0] == "comp" and isinstance(c[1], tuple) and c[1] and c[1][0] == "tuple" and len(c[1]) >= 3:
+                        a, b = c[1][1], c[1][2]
+                        if mentions_sym(b, "PATH") and not mentions_sym(a, "PATH"):
+                            found.append(x)
+                            return True
+                return False
+
+            contains(t, pred)
+            return found[0] if found else None
+
+        for e in cps:
+            if mentions_sym(e.term, "PATH") and rekeyed(e.term) is None:
+                n5 += 1
+                rep.ok("C19.R5", sync.qname, f"the copy destination {show(e.term)[:80]} is a function of the path whose record is written", e.where())
+                continue
+            rk = rekeyed(e.term)
+            if rk is not None:
+                n5 += 1
+                rep.bad("C19.R5", sync.qname, "the copies are driven by the paths (one copy per path whose record is written)", e.where(),
+                        [f"{e.where()}: copy destination comes from a mapping whose key does not determine the path: {show(rk)[:160]}",
+                         "two kept paths with the same content share one blob key: the mapping holds one of them, the other path gets its record but no copy "
+                         "('full' promises a byte-identical copy of each kept result)"],
+                        "copy-rekeyed", what="under the full commit a path can get its redirect record without its data copy")
+            else:
+                n5 += 1
+                rep.info("C19.R5", sync.qname, f"copy destination {show(e.term)[:80]} is not expressed in terms of the path (not judged)", e.where())
+        if not any(mentions_sym(p_.term, "PATH") for p_ in puts) and puts:
+            rep.info("C19.R5", sync.qname, "record location is not expressed in terms of the path (not judged)", puts[0].where())
+    rep.floor("C19.R5", n5, 1)
+
     # ---- R1 decode ------------------------------------------------------------------------------
     docs = documented_commit_types(ctx)
     f = prog.funcs.get("dds._api.set_store")
@@ -222,6 +268,57 @@ def run(ctx: Ctx) -> None:
                             rep.bad("C19.R2", init.qname, desc, init.loc(elt), [f"{old!r} -> {c.qname} whose reference is {new!r}"], f"alias:{old}",
                                     what=f"legacy reference {old} is decoded with the {new} codec")
     rep.floor("C19.R2", n2, 3)
+
+    # ---- R6: the aliases stay registered -------------------------------------------------------------------------
+    rep.rule("C19.R6", "legacy aliases are item stores into the registry's reference table from outside the registry class: no registry method "
+                       "other than the constructor replaces or empties that table (a later registration must not drop them)")
+    reg = prog.classes.get("dds.codec.CodecRegistry")
+    if reg is None:
+        raise AnchorError("dds.codec.CodecRegistry not found")
+    outside: Dict[str, List[Tuple[Func, ast.AST]]] = {}
+    reg_attrs = set()
+    ri = reg.methods.get("__init__")
+    if ri is not None:
+        for n in ri.own_nodes():
+            if isinstance(n, (ast.Assign, ast.AnnAssign)):
+                for t in (n.targets if isinstance(n, ast.Assign) else [n.target]):
+                    if isinstance(t, ast.Attribute) and isinstance(t.value, ast.Name) and t.value.id == "self":
+                        reg_attrs.add(t.attr)
+    for g in prog.funcs.values():
+        if g.cls is reg or (g.parent is not None and g.parent.cls is reg):
+            continue
+        for n in g.own_nodes():
+            if isinstance(n, ast.Subscript) and isinstance(n.ctx, ast.Store) and isinstance(n.value, ast.Attribute) and n.value.attr in reg_attrs \
+                    and not (isinstance(n.value.value, ast.Name) and n.value.value.id == "self" and g.cls is not None and n.value.attr not in reg_attrs):
+                rc = ctx.types.receiver_class(g.module.name, n.value.value)
+                if rc in (None, reg.qname):
+                    outside.setdefault(n.value.attr, []).append((g, n))
+    n6 = 0
+    for tab, sites in sorted(outside.items()):
+        n6 += 1
+        desc = f"aliases stored into `{tab}` from outside ({len(sites)} site(s)) survive later registrations"
+        wit = []
+        for m_ in reg.methods.values():
+            if m_.name == "__init__":
+                continue
+            for n in m_.own_nodes():
+                if isinstance(n, (ast.Assign, ast.AnnAssign)):
+                    for t in (n.targets if isinstance(n, ast.Assign) else [n.target]):
+                        if isinstance(t, ast.Attribute) and t.attr == tab and isinstance(t.value, ast.Name) and t.value.id == "self":
+                            wit.append(f"{m_.loc(n)}: `{unparse(n, 60)}` in {m_.name} replaces the whole table")
+                elif isinstance(n, ast.Call) and isinstance(n.func, ast.Attribute) and n.func.attr in ("clear", "pop", "popitem") and isinstance(n.func.value, ast.Attribute) \
+                        and n.func.value.attr == tab:
+                    wit.append(f"{m_.loc(n)}: `{unparse(n, 60)}` in {m_.name} removes entries")
+                elif isinstance(n, ast.Delete) and any(isinstance(x, ast.Attribute) and x.attr == tab for t_ in n.targets for x in ast.walk(t_)):
+                    wit.append(f"{m_.loc(n)}: `{unparse(n, 60)}` in {m_.name} removes entries")
+        if wit:
+            g0, n0 = sites[0]
+            rep.bad("C19.R6", reg.qname, desc, g0.loc(n0), [f"alias stored at {g.loc(n)}: `{unparse(prog.enclosing_stmt(g.module, n), 70)}`" for g, n in sites[:4]] + wit + [
+                "after any later registration (a user codec, the construction of another store) the legacy references are gone: blobs whose metadata "
+                "names them fail with PROTOCOL_NOT_FOUND"], "alias-dropped:" + tab, what="legacy codec aliases are dropped by a later codec registration")
+        else:
+            rep.ok("C19.R6", reg.qname, desc, sites[0][0].loc(sites[0][1]))
+    rep.floor("C19.R6", n6, 1)
 
     check_reader(ctx, cls, "C19.R4")
     # ---- R4 marker ---------------------------------------------------------------------------------
